@@ -183,11 +183,12 @@ Definition run_check_only (verdict : verdict_t) (tc0 : tcase) (file0 : bytes) : 
 (* A strategy that replays a recorded list of steps (used by the correspondence check to
    drive the model of the DRIVER with the proposals of strategies that have no concrete
    model: the replace-* rewriters and the experimental move). *)
-Inductive rstep := RProp (t : tcase) | RRaw (b : bytes).
+Inductive rstep := RProp (t : tcase) | RRaw (b : bytes) | RFail (e : exn).
 Definition replay (steps : list rstep) : strategy (list rstep) :=
   {| s_start := fun _ => steps;
      s_next := fun st _ => match st with
                            | [] => Done
                            | RProp t :: r => Propose t (fun _ => r)
                            | RRaw b :: r => RawWrite b r
+                           | RFail e :: _ => Fail e
                            end |}.
